@@ -382,7 +382,11 @@ def t_opt_barrier(facts, res, tier):
             role = "%s#%d" % (base, n)
             n += 1
         roles_seen.add(role)
-        arms = {pat_text(a["pat"]): a for a in m["arms"]}
+        arms = {}
+        for a in m["arms"]:
+            alts = a["pat"]["alts"] if a["pat"].get("k") == "or" else [a["pat"]]
+            for alt in alts:
+                arms[pat_text(alt)] = a
         handled = {}
         for pt, a in arms.items():
             mm = re.match(r"^Some\(AsmLine::(\w+)", pt)
